@@ -107,7 +107,9 @@ def WeightedMean(inputs, p):
         raise Undefined("weight count")
     sw = sum(w, F(0))
     if sw == 0:
-        raise Undefined("weights sum to zero")
+        # division by zero yields missing cells rather than an error or infinity (C07)
+        _zipcells(inputs)
+        return [None] * len(inputs[0]), 1.0
     sc = sum(_scale(_valid(c)) * abs(float(wi)) for c, wi in zip(inputs, w)) / abs(float(sw))
     return _lift(lambda t: sum((a * b for a, b in zip(t, w)), F(0)) / sw, inputs), sc
 
